@@ -66,7 +66,7 @@ def auxOf (args : List String) (pre : String) : Option String :=
 
 def handleBot : Handler := fun st op args =>
   match op, args with
-  | "case", _ => some ({ st with bot := none }, "ok")
+  | "case", _ => some ({ st with bot := none, botStale := 0 }, "ok")
   | "botnew", colour :: size :: secs :: gameNo :: rest =>
     match size.toNat?, secs.toInt? with
     | some size, some secs =>
@@ -76,7 +76,7 @@ def handleBot : Handler := fun st op args =>
       let s0 := start cfg size secs
       let noGame := s0.status != .running
       let b : Session := { cfg := cfg, st := if noGame then s0 else settle cfg s0, noGame := noGame }
-      some ({ st with bot := some b }, botSummary b "new")
+      some ({ st with bot := some b, botStale := 0 }, botSummary b "new")
     | _, _ => some (st, "bad-op")
   | "state", _ =>
     match st.bot with
@@ -89,6 +89,11 @@ def handleBot : Handler := fun st op args =>
       let fin (s : Bot.St) (r : String) : Option (St × String) :=
         let b' := { b with st := s }
         some ({ st with bot := some b' }, botSummary b' r)
+      -- the timed system (Impl/BotTimer.lean): every op is one `ttieStep`
+      let t : Timed := { st := b.st, stale := st.botStale }
+      let finT (t' : Timed) (r : String) : Option (St × String) :=
+        let b' := { b with st := t'.st }
+        some ({ st with bot := some b', botStale := t'.stale }, botSummary b' r)
       let alive := b.st.status = .running
       match kind, rest with
       | "deliver", h :: aux =>
@@ -100,9 +105,9 @@ def handleBot : Handler := fun st op args =>
             | none => none
           let accept := auxOf aux "a=" == some "1"
           if !alive then fin b.st "gone"
-          else fin (tieStep b.cfg b.st (.deliver (line.splitOn " ") parsed accept)) "ok"
+          else finT (ttieStep b.cfg t (.ev (.deliver (line.splitOn " ") parsed accept))) "ok"
       | "close", _ =>
-        if !alive then fin b.st "gone" else fin (tieStep b.cfg b.st .close) "ok"
+        if !alive then fin b.st "gone" else finT (ttieStep b.cfg t (.ev .close)) "ok"
       | "aireturns", [mtok] =>
         match parseMove mtok with
         | none => some (st, "bad-move")
@@ -114,10 +119,9 @@ def handleBot : Handler := fun st op args =>
             let r := match thinkerAt b.st k with
               | some t => s!"ai:{t.pos.move}:{if t.cancelled then 1 else 0}"
               | none => "ai:?"
-            fin (tieStep b.cfg b.st (.aiReturns k m)) r
-      | "timer", _ =>
-        let fired := alive ∧ b.st.timeout = true
-        fin (tieStep b.cfg b.st .timerFires) (if fired then "fired" else "idle")
+            finT (ttieStep b.cfg t (.ev (.aiReturns k m))) r
+      | "timer", _ => finT (ttieStep b.cfg t .expire) (expireResult t)
+      | "drain", _ => finT (drain b.cfg t) s!"drained:{t.stale}:{if live t.st then 1 else 0}"
       | _, _ => some (st, "bad-op")
   | _, _ => none
 
